@@ -4,6 +4,7 @@ package regal.rules.style["use-assignment-operator"]
 
 import data.regal.ast
 import data.regal.result
+import data.regal.util
 
 report contains violation if {
 	# foo = "bar"
@@ -17,7 +18,7 @@ report contains violation if {
 	not ast.is_chained_rule_body(rule, input.regal.file.lines)
 
 	loc := result.location(rule.head)
-	eq_col := _eq_col(loc.location.text)
+	eq_col := _eq_col(loc.location, rule.head.value.location)
 
 	violation := result.fail(rego.metadata.chain(), object.union(
 		loc,
@@ -40,7 +41,7 @@ report contains violation if {
 	not ast.implicit_boolean_assignment(rule)
 
 	loc := result.location(result.location(rule.head.ref[0]))
-	eq_col := _eq_col(loc.location.text)
+	eq_col := _eq_col(loc.location, rule.head.value.location)
 
 	violation := result.fail(rego.metadata.chain(), object.union(
 		loc,
@@ -72,7 +73,7 @@ report contains violation if {
 	# extract the text from location to see if '=' is used for
 	# assignment
 	regex.match(`else\s*=`, loc.location.text)
-	eq_col := _eq_col(loc.location.text)
+	eq_col := _eq_col(loc.location, value.head.value.location)
 
 	violation := result.fail(rego.metadata.chain(), object.union(
 		loc,
@@ -86,4 +87,13 @@ report contains violation if {
 	))
 }
 
-_eq_col(text) := max([0, indexof(text, "=")]) + 1
+# the assignment operator is the last character (ignoring whitespace) before the value when
+# both are on the same line, and looking for it there avoids mistaking any other "=" found on
+# the line for it, like one inside of a string, or one that is part of an earlier ":="
+_eq_col(location, value_loc) := count(before) if {
+	value_location := util.to_location_object(value_loc)
+	value_location.row == location.row
+
+	before := trim_right(substring(location.text, 0, value_location.col - 1), " \t")
+	endswith(before, "=")
+} else := max([0, indexof(location.text, "=")]) + 1
